@@ -73,7 +73,22 @@ func manifestWith(constraints string) string {
 	return m.YAML()
 }
 
+func multiManifest(name string) string {
+	m := baseManifest
+	m.Name = name
+	m.Components = name == "app"
+	return m.YAML()
+}
+
+// multiFiles: a multi-component image - the root package and two components, selected by spec.component.
+var multiFiles = map[string]string{
+	"manifest.yaml": multiManifest("app"), "a.yaml": pkgw.WidgetYAML("Widget", "root-a", "p1", "1", nil),
+	"components/frontend/manifest.yaml": multiManifest("frontend"), "components/frontend/f.yaml": pkgw.WidgetYAML("Widget", "frontend-f", "p1", "1", nil),
+	"components/backend/manifest.yaml": multiManifest("backend"), "components/backend/b.yaml.gotmpl": pkgw.WidgetYAML("Widget", "backend-b", "p2", "{{ default 3 .config.x }}", nil),
+}
+
 var images = map[string]imageClass{
+	"multi":         {Name: "multi", Files: multiFiles},
 	"v1":            {Name: "v1", Files: with(objs("a", "b"), map[string]string{"manifest.yaml": baseManifest.YAML()})},
 	"v2":            {Name: "v2", Files: with(objs("a", "c"), map[string]string{"manifest.yaml": baseManifest.YAML()})},
 	"tmpl":          {Name: "tmpl", Files: with(objs("a"), map[string]string{"manifest.yaml": baseManifest.YAML(), "t.yaml.gotmpl": pkgw.WidgetYAML("Widget", "t", "p2", "{{ default 7 .config.x }}", nil)})},
@@ -187,10 +202,13 @@ type scenario struct {
 	StartPaused bool `json:"startPaused"`
 	ODDeletes   int  `json:"odDeletes"`
 	Twin        bool `json:"twin"` // a second Package using the same manifest name exists
+	// Components: values the user may set spec.component to ("" = the root package) - only used
+	// with the multi-component image
+	Components []string `json:"components,omitempty"`
 }
 
 func (sc scenario) name() string {
-	return fmt.Sprintf("package env=%s images=%v configs=%v edits=%d faults=%d pauses=%d races=%d twin=%v longLived=%v startPaused=%v odDeletes=%d", sc.Env, sc.Images, sc.Confs, sc.Edits, sc.Faults, sc.Pauses, sc.Races, sc.Twin, sc.LongLived, sc.StartPaused, sc.ODDeletes)
+	return fmt.Sprintf("package env=%s images=%v configs=%v edits=%d faults=%d pauses=%d races=%d twin=%v longLived=%v startPaused=%v odDeletes=%d components=%v", sc.Env, sc.Images, sc.Confs, sc.Edits, sc.Faults, sc.Pauses, sc.Races, sc.Twin, sc.LongLived, sc.StartPaused, sc.ODDeletes, sc.Components)
 }
 
 var pkgKey = world.PKOKey("Package", world.NS, "p")
@@ -267,7 +285,8 @@ func freshRender(sc scenario, c map[string]any) (corev1alpha1.ObjectSetTemplateS
 	if len(tctx.Package.Annotations) == 0 {
 		tctx.Package.Annotations = nil
 	}
-	r := pkgw.Render(images[image].Files, "", tctx)
+	comp, _ := c["spec"].(map[string]any)["component"].(string)
+	r := pkgw.Render(images[image].Files, comp, tctx)
 	return r.Spec, r.Err
 }
 
@@ -498,6 +517,26 @@ func system(sc scenario) *world.System {
 						return nil
 					}})
 				}
+				if image == "multi" {
+					curComp, _ := pkg.Content["spec"].(map[string]any)["component"].(string)
+					for _, comp := range sc.Components {
+						if comp == curComp {
+							continue
+						}
+						comp := comp
+						evs = append(evs, world.Event{Name: "user:set-component:" + comp, Apply: func(w *world.World) *world.Pass {
+							w.Budget["edit"]--
+							_ = w.Edit(pkgKey, func(c map[string]any) {
+								if comp == "" {
+									delete(c["spec"].(map[string]any), "component")
+								} else {
+									c["spec"].(map[string]any)["component"] = comp
+								}
+							})
+							return nil
+						}})
+					}
+				}
 				for _, cn := range sc.Confs {
 					raw := configs[cn]
 					if raw == config || (raw == "" && config == "") {
@@ -633,6 +672,7 @@ func scenarios(quick bool) []scenario {
 		{Env: "k8s-1.27", Images: []string{"v1", "v2"}, Confs: []string{"none"}, Edits: 1, Pauses: 1, StartPaused: true},
 		{Env: "k8s-1.27", Images: []string{"v1", "big", "big2", "huge"}, Confs: []string{"none"}, Edits: 2},
 		{Env: "k8s-1.27", Images: []string{"v1", "locked", "dupphase", "dupphase-locked"}, Confs: []string{"none"}, Edits: 2},
+		{Env: "k8s-1.27", Images: []string{"multi"}, Confs: []string{"none", "x1"}, Components: []string{"", "frontend", "backend"}, Edits: 3},
 	}
 	if !quick {
 		out = append(out,
